@@ -244,7 +244,11 @@ def run(ctx):
                 break
             prev = o
     if ctx.quick:
-        tuples = tuples[:1] + must + rng.sample(tuples[1:], min(len(tuples) - 1, 14))
+        # never drop the tuples whose fresh_time lies in a repeated hour (an aware fresh_time must keep denoting its instant)
+        with_fresh = [t for t in tuples[1:] if t["fresh"] is not None]
+        keep = with_fresh[:4]
+        rest = [t for t in tuples[1:] if t not in keep]
+        tuples = tuples[:1] + must + keep + rng.sample(rest, min(len(rest), 12))
     else:
         tuples = tuples + must
     for _ in range(ctx.n(30, 500)):
